@@ -22,6 +22,7 @@ import (
 	"sort"
 	"strconv"
 	"testing"
+	"time"
 
 	"github.com/lni/dragonboat/v4/client"
 	"github.com/lni/dragonboat/v4/config"
@@ -137,7 +138,8 @@ type vCB struct {
 }
 
 type vNode struct {
-	cbs map[uint64]vCB
+	cbs     map[uint64]vCB
+	onApply func(index uint64) // set while a batch is applied whose notifications race a snapshot save
 }
 
 func (n *vNode) StepReady()                       {}
@@ -147,6 +149,9 @@ func (n *vNode) ApplyUpdate(e pb.Entry, r sm.Result, rejected bool, ignored bool
 		panic(fmt.Sprintf("two callbacks for entry %d", e.Index))
 	}
 	n.cbs[e.Index] = vCB{Called: true, Value: r.Value, Rejected: rejected, Ignored: ignored}
+	if n.onApply != nil {
+		n.onApply(e.Index)
+	}
 }
 func (n *vNode) ApplyConfigChange(cc pb.ConfigChange, key uint64, rejected bool) error {
 	n.cbs[key] = vCB{Called: true, Rejected: rejected}
@@ -504,6 +509,76 @@ func (s *smSim) applyTo(in *vInst, to uint64) {
 	}
 }
 
+// applyWithRacingSave applies the next entries of the stream to a concurrent state machine as ONE batch while
+// a snapshot save is started from inside the client notification of the first entry of the batch (the
+// snapshot worker's request arrives while the apply worker is between the user's Update and the end of the
+// batch). The save must wait for the end of the batch or see a consistent (index, content) pair; the snapshot
+// is recovered on a fresh instance like any other and compared with RSM.tla.
+func (s *smSim) applyWithRacingSave(in *vInst, sid int) *pb.Snapshot {
+	to := uint64(len(s.stream))
+	first := in.s.index + 1
+	if to < first+1 || in.s.members.isEmpty() {
+		return nil
+	}
+	if to > first+3 {
+		to = first + 3
+	}
+	ents := []pb.Entry{}
+	for i := first; i <= to; i++ {
+		ents = append(ents, mkEntry(s.stream[i-1]))
+	}
+	type res struct {
+		ss  pb.Snapshot
+		err error
+	}
+	done := make(chan res, 1)
+	started := false
+	in.node.onApply = func(index uint64) {
+		if started {
+			return
+		}
+		started = true
+		go func() {
+			ss, _, err := in.s.concurrentSave(SSRequest{})
+			done <- res{ss, err}
+		}()
+		time.Sleep(2 * time.Millisecond) // lets the save reach the state machine's lock
+	}
+	in.s.taskQ.Add(Task{Entries: ents})
+	if _, err := in.s.Handle(make([]Task, 0), make([]sm.Entry, 0)); err != nil {
+		panic(err)
+	}
+	in.node.onApply = nil
+	var got *pb.Snapshot
+	if started {
+		if r := <-done; r.err == nil && r.ss.Index >= first-1 && r.ss.Index <= to {
+			got = &r.ss
+		}
+	}
+	// the snapshot belongs to the index it is labelled with: SaveAt is placed behind the Apply event of that
+	// index (in front of the batch when it is labelled with the index before it)
+	if got != nil && got.Index == first-1 {
+		s.emit(jSmEv{Op: "SaveAt", SM: in.id, Sid: sid})
+	}
+	for i := first; i <= to; i++ {
+		je := s.stream[i-1]
+		cb, ok := in.node.cbs[je.Idx]
+		if !ok {
+			cb = vCB{}
+		}
+		delete(in.node.cbs, je.Idx)
+		ev := jSmEv{Op: "Apply", SM: in.id, E: &je, CB: &cb}
+		if i == to {
+			ev.HasSt, ev.St = true, in.proj()
+		}
+		s.emit(ev)
+		if got != nil && got.Index == i {
+			s.emit(jSmEv{Op: "SaveAt", SM: in.id, Sid: sid})
+		}
+	}
+	return got
+}
+
 func (s *smSim) run(nEntries int) {
 	s.emit(jSmEv{Op: "Init"})
 	if err := s.fs.MkdirAll("/ss", 0755); err != nil {
@@ -521,6 +596,18 @@ func (s *smSim) run(nEntries int) {
 			s.applyTo(ref, uint64(len(s.stream)))
 		}
 		for _, in := range live[1:] {
+			if s.kind == "concurrent" && s.rng.Intn(4) == 0 {
+				if ss := s.applyWithRacingSave(in, sid+1); ss != nil {
+					sid++
+					twin := s.newInst()
+					twin.snap.cur = *ss
+					if _, err := twin.s.Recover(Task{Index: ss.Index}); err != nil {
+						panic(err)
+					}
+					s.emit(jSmEv{Op: "Recover", SM: twin.id, Sid: sid, HasSt: true, St: twin.proj()})
+				}
+				continue
+			}
 			if s.rng.Intn(3) > 0 {
 				s.applyTo(in, uint64(len(s.stream)))
 			}
